@@ -410,7 +410,13 @@ def binding_a(pid, binp, cfg, verdict, scd, walks, depth, rnd, probes=False):
                 unexplained.append(e["id"])
         if not same:
             diverged.add(e["h"])
-    stats.update({"transitions_dumped": len(trs), "dump_states": r.distinct, "walks": walks, "replayed": rep["cases"],
+    explored = {}
+    for t in trs:
+        st = t["stmt"]
+        k = "%s:%s%s->%s%s" % (st["k"], st["mode"], "ignore" if st["ignore"] else "", t["reply"]["kind"],
+                               ":" + t["reply"]["class"] if t["reply"]["class"] else "")
+        explored[k] = explored.get(k, 0) + 1
+    stats.update({"explored": explored, "transitions_dumped": len(trs), "dump_states": r.distinct, "walks": walks, "replayed": rep["cases"],
                   "direct_compared": direct, "direct_differ": differ})
     if differ and stats["mismatches"] == 0:
         raise lib.Inconclusive("binding A: the engine's tables differ from TLC's single allowed post-state at statements %s "
@@ -463,7 +469,10 @@ def check(pid, tier, profile, mc_quick, mc_thorough, dump_cfg, n_quick=36, n_tho
     binp = lib.build("dml")
     v = lib.Verdict(pid)
     quick = tier == "quick"
-    mc = MCRun(mc_quick if quick else mc_thorough, workers=6 if quick else 8, coverage=not quick)
+    # no `-coverage 1`: TLC's coverage instrumentation of the recursive evaluator runs out of memory
+    # (6 GB heap, no state after 6 minutes even on the smallest configuration); what the models
+    # explored is measured from the transition dump instead (statement kind x reply class counts)
+    mc = MCRun(mc_quick if quick else mc_thorough, workers=6 if quick else 8, coverage=False)
     mc.start()
     try:
         with lib.Scratch() as scd:
@@ -494,11 +503,11 @@ def check(pid, tier, profile, mc_quick, mc_thorough, dump_cfg, n_quick=36, n_tho
                 lib.log("[%s] binding A: %s" % (pid, {k: a_stats[k] for k in ("transitions_dumped", "replayed", "mismatches", "direct_compared", "direct_differ")}))
             nw = wit.finish(v)
             mc_states, mc_trans = mc.finish()
-            if not quick:
-                for cfg, r in mc.results:
-                    zero = [a for a in r.coverage_zero() if a in ("Next",)]
-                    if zero:
-                        raise lib.Inconclusive("MC_Tables/%s: action never enabled: %s" % (cfg, zero))
+            if a_stats:
+                ex = a_stats["explored"]
+                kinds = {k.split("->")[0].split(":")[0] for k in ex}
+                if not {"insert", "delete"} <= kinds or len(ex) < 6 or not any("->err" in k for k in ex):
+                    raise lib.Inconclusive("vacuous model: the transition dump of %s only has %s" % (dump_cfg, sorted(ex)))
             rc = v.finish()
             cov = {
                 "states": mc_states + stats["states"], "transitions": mc_trans + rep["cases"],
